@@ -1323,6 +1323,8 @@ fn flevels(tier: Tier) -> Vec<FLevel> {
         FLevel { name: "1 axis, 2 one-box rules", n: 1, flavour: Plain, last: false, pos: vec![Single, Single], coarse: false, maps: tuples(2, 6) },
         FLevel { name: "1 axis, processing=last, 2 one-box rules", n: 1, flavour: Plain, last: true, pos: vec![Single, Single], coarse: false, maps: pairs[..4].to_vec() },
         FLevel { name: "2 axes, coarse intervals, 1 rule", n: 2, flavour: Plain, last: false, pos: vec![Single], coarse: true, maps: tuples(1, 6) },
+        // two condition sets in one rule, each free to leave out an axis the other one uses
+        FLevel { name: "2 axes, coarse intervals, 1 rule of 2 boxes", n: 2, flavour: Plain, last: false, pos: vec![Any], coarse: true, maps: tuples(1, 6) },
     ];
     match tier {
         Tier::Quick => {
@@ -1338,6 +1340,7 @@ fn flevels(tier: Tier) -> Vec<FLevel> {
             v.push(FLevel { name: "2 axes, 1 one-box rule", n: 2, flavour: Plain, last: false, pos: vec![Single], coarse: false, maps: tuples(1, 6) });
             v.push(FLevel { name: "2 axes, 2 one-box rules", n: 2, flavour: Plain, last: false, pos: vec![Single, Single], coarse: false, maps: pairs.clone() });
             v.push(FLevel { name: "2 axes with <map>, coarse intervals, 2 one-box rules", n: 2, flavour: Mapped, last: false, pos: vec![Single, Single], coarse: true, maps: pairs.clone() });
+            v.push(FLevel { name: "2 axes, coarse intervals, rule of 1-2 boxes then one-box rule", n: 2, flavour: Plain, last: false, pos: vec![Any, Single], coarse: true, maps: pairs.clone() });
         }
     }
     v
